@@ -1,21 +1,7 @@
 """C01 - query results equal exactly the stored points that satisfy the query (DESIGN 4, C01)."""
 
-from .. import qast, refmodel, world as W
+from .. import observers, qast, refmodel, world as W
 from .base import E1Check, viol, CFG4
-
-
-def same_multiset(a, b):
-    if len(a) != len(b):
-        return False
-    b = list(b)
-    for x in a:
-        for i, y in enumerate(b):
-            if x == y:
-                del b[i]
-                break
-        else:
-            return False
-    return True
 
 
 def std_ops(alpha, cfg, tier, with_reads=True):
@@ -56,15 +42,14 @@ def std_ops(alpha, cfg, tier, with_reads=True):
     return ops
 
 
-SELECT_KEYS = ["time", ("measurement", "tags.a", "fields.v"), "tags.zz"]
-
-
 class C01(E1Check):
     prop = "C01"
 
     def __init__(self, tier, seed):
         super().__init__(tier, seed)
-        self.vocab = self.alpha.vocabulary("quick" if tier == "quick" else "thorough")
+        lvl = "quick" if tier == "quick" else "thorough"
+        self.vocab = self.alpha.vocabulary(lvl)
+        self.n_atoms2 = 2 * len(self.alpha.atoms(lvl))  # atoms and their negations come first
 
     def rule(self):
         return (
@@ -107,68 +92,12 @@ class C01(E1Check):
 
     # -- state observers --------------------------------------------------------------------
     def observe(self, w, stored, history, cfg, counters):
-        out = []
-        db = w.db
-        seen_sig = set()
-
-        def bad(oracle, served, readop, ast, m, observed, expected):
-            sig = f"C01|{served}|{readop}|shape={qast.shape(ast)}|filter={'y' if m else 'n'}"
-            if sig in seen_sig:
-                return
-            seen_sig.add(sig)
-            out.append(viol(oracle, sig, observed=observed, expected=expected, probe=(readop, ast, m), kind="state"))
-
-        def call(f, *a, **kw):
-            try:
-                return ("ret", f(*a, **kw))
-            except Exception as e:  # noqa
-                return ("exc", type(e).__name__, str(e)[:120])
-
-        for m in (None, "m", "n", "zz"):
-            margs = (m,) if m is not None else ()
-            for ast in self.vocab:
-                served = "index" if (cfg["auto_index"] or db.index.valid) else "scan"
-                counters["reads_" + served] += 1
-                exp_idx = refmodel.select(stored, refmodel.q_pred(ast), m)
-                exp = [stored[i] for i in exp_idx]
-                counters["nonempty_partial_answers"] += 1 if 0 < len(exp) < len(stored) else 0
-                q = qast.build(ast)
-                # search sorted
-                r = call(db.search, q, *margs)
-                if r[0] == "exc":
-                    bad("search-raises", served, "search", ast, m, r, exp)
-                else:
-                    got = [refmodel.rp_of_point(p) for p in r[1]]
-                    if not same_multiset(got, exp) or any(got[i][0] > got[i + 1][0] for i in range(len(got) - 1)):
-                        bad("search-sorted", served, "search", ast, m, got, sorted(exp, key=lambda rp: rp[0]))
-                # search unsorted
-                r = call(db.search, qast.build(ast), *margs, sorted=False)
-                if r[0] == "exc":
-                    bad("search-raises", served, "search_unsorted", ast, m, r, exp)
-                elif [refmodel.rp_of_point(p) for p in r[1]] != exp:
-                    bad("search-insertion-order", served, "search_unsorted", ast, m, [refmodel.rp_of_point(p) for p in r[1]], exp)
-                r = call(db.count, qast.build(ast), *margs)
-                if r != ("ret", len(exp)):
-                    bad("count", served, "count", ast, m, r, len(exp))
-                r = call(db.contains, qast.build(ast), *margs)
-                if r != ("ret", bool(exp)):
-                    bad("contains", served, "contains", ast, m, r, bool(exp))
-                r = call(db.get, qast.build(ast), *margs)
-                e = exp[0] if exp else None
-                if r[0] == "exc" or (None if r[1] is None else refmodel.rp_of_point(r[1])) != e:
-                    bad("get-first", served, "get", ast, m, r if r[0] == "exc" else (None if r[1] is None else refmodel.rp_of_point(r[1])), e)
-                if m in (None, "m"):
-                    for keys in SELECT_KEYS:
-                        r = call(db.select, keys, qast.build(ast), *margs)
-                        e = refmodel.select_keys(stored, keys, ast, m)
-                        if r != ("ret", e):
-                            bad("select", served, "select", ast, m, r, e)
-        counters["observer_reads"] += len(self.vocab) * 4 * 5 + len(self.vocab) * 2 * len(SELECT_KEYS)
-        return out
-
-    def recheck(self, rec):
-        out = super().recheck(rec)
-        return out
+        quick = self.tier == "quick"
+        return observers.read_battery(
+            "C01", w.db, stored, cfg, self.vocab, counters,
+            reduced=(("n", "zz"), self.n_atoms2) if quick else None,
+            select_filters=(None,) if quick else (None, "m"),
+        )
 
 
 def make(tier, seed):
